@@ -39,13 +39,16 @@ void sm3_update(SM3_CTX *ctx, const uint8_t *data, size_t datalen)
 	size_t len = (size_t)ctx->nblocks;
 	if (rec_slots[s].len != len) {          /* another copy of this context moved on: fork */
 		int ns = new_slot();
-		if (len) memcpy(rec_slots[ns].buf, rec_slots[s].buf, len);
+		for (size_t i = 0; i < REC_CAP; i++) if (i < len) rec_slots[ns].buf[i] = rec_slots[s].buf[i];
 		rec_slots[ns].len = len;
 		s = ns;
 		ctx->digest[1] = (uint32_t)ns;
 	}
 	__CPROVER_assert(len + datalen <= REC_CAP, "M2: recorder slot capacity large enough");
-	memcpy(rec_slots[s].buf + len, data, datalen);
+	/* guarded writes at concrete indices: cheap when len is concrete even if datalen is symbolic
+	 * (a symbolic-size memcpy would make every later access to the slot symbolic) */
+	for (size_t i = 0; i < REC_CAP; i++)
+		if (i >= len && i < len + datalen) rec_slots[s].buf[i] = data[i - len];
 	rec_slots[s].len = len + datalen;
 	ctx->nblocks = len + datalen;
 }
